@@ -236,6 +236,10 @@ impl Gen {
         let thr = r.pick(&self.p.thrs);
         let rate = r.pick(&self.p.keeper_rates);
         self.nvals = 1 + r.below(4) as usize;
+        if self.p.name == "registry" && r.chance(1, 4) {
+            // a large validator set (more than any per-message cap a change might introduce)
+            self.nvals = 11 + r.below(2) as usize;
+        }
         let vals: Vec<Id> = VALS[..self.nvals].to_vec();
         let mut bb: Vec<(Id, u128)> = vec![];
         let mut sb: Vec<(Id, u128)> = vec![];
